@@ -13,6 +13,9 @@ let parse_action (a : string list) : action =
   | ["cancel"; o] -> ACancel (z_of_string o)
   | ["close"; o] -> AClose (z_of_string o)
   | ["sched"; t; k; ms; cb] -> ASched (z_of_string t, k = "rep", z_of_string ms, z_of_string cb)
+  (* a delay in microseconds: the model's clock counts milliseconds, the delay is rounded up (the scripts only look at the timer
+     after at least that long) *)
+  | ["schedus"; t; k; us; cb] -> ASched (z_of_string t, k = "rep", z_of_int ((int_of_string us + 999) / 1000), z_of_string cb)
   | ["tcancel"; t] -> ATCancel (z_of_string t)
   | ["tclose"; t] -> ATClose (z_of_string t)
   | ["post"; cb] -> APost (z_of_string cb)
@@ -52,6 +55,7 @@ let parse_op (toks : string list) (impl_toks : string list) : lop =
   | ["peer"; i; "close"] -> LPeer (z_of_string i, PClose)
   | ["peer"; i; "rst"] -> LPeer (z_of_string i, PRst)
   | ["peer"; i; "drain"; n] -> LPeer (z_of_string i, PDrain (z_of_string n))
+  | ["peer"; i; "fill"] -> LPeer (z_of_string i, PFill)
   | ["sleep"; ms] -> LSleep (z_of_string ms)
   | ["pollone"] -> LPoll (parse_batch (kv_def impl_toks "batch" ""))
   | a -> LAct (parse_action a)
